@@ -84,16 +84,22 @@ class C08(VariantCheck):
             f.write("CONSTANTS Eps = 1\n MaxSegs = 3\n MaxRank = 8\n Slack = 1\n MinGap = 1\nSPECIFICATION Spec\nINVARIANTS NoUpwardShift\nCHECK_DEADLOCK FALSE\n")
         ms.append(ModelRun("CompIntercepts.tla", cfg, "sensitivity: segments that start one rank apart (chunk seam) get an intercept moved up (F16)", workers=1, timeout=300,
                            expect="violation:*", constants={"Eps": 1, "MinGap": 1}))
-        def comp_cfg(name, u, n, eps, chunks, inv):
+        def comp_cfg(name, u, n, eps, chunks, inv, epsrec=0):
             c = os.path.join(work, name + ".cfg")
             with open(c, "w") as f:
-                f.write("CONSTANTS U = %d\n N = %d\n Eps = %d\n NChunks = %d\n Sentinel = %d\nSPECIFICATION Spec\nINVARIANTS %s\nCHECK_DEADLOCK FALSE\n" % (u, n, eps, chunks, u, inv))
+                f.write("CONSTANTS U = %d\n N = %d\n Eps = %d\n EpsRec = %d\n NChunks = %d\n Sentinel = %d\nSPECIFICATION Spec\nINVARIANTS %s\nCHECK_DEADLOCK FALSE\n" % (u, n, eps, epsrec, chunks, u, inv))
             return c
         ALLC = "Shape C08Present C08LowerBound BuilderOK ClampOK NoUpwardShift"
         for u, n, eps in ((10, 7, 1), (10, 8, 2)) + (((12, 8, 1), (12, 9, 2)) if tier == "thorough" else ()):
             name = "Compressed_U%d_N%d_e%d" % (u, n, eps)
             ms.append(ModelRun("Compressed.tla", comp_cfg(name, u, n, eps, 1, ALLC), name + " (exact geometry of merge_slopes + clamped intercepts + search, sequential first level)",
                                workers=4, timeout=2400, heap="8g", constants={"U": u, "N": n, "Eps": eps, "NChunks": 1}))
+        for u, n, eps, er in ((10, 7, 1, 1),) + (((12, 8, 1, 1), (10, 8, 2, 2)) if tier == "thorough" else ()):
+            name = "CompressedRec_U%d_N%d_e%d_r%d" % (u, n, eps, er)
+            ms.append(ModelRun("Compressed.tla", comp_cfg(name, u, n, eps, 1, ALLC + " InBounds", er), name + " (recursive: slopes of all levels merged, root model, window + forward scan per level)",
+                               workers=4, timeout=2400, heap="8g", constants={"U": u, "N": n, "Eps": eps, "EpsRec": er}))
+        ms.append(ModelRun("Compressed.tla", comp_cfg("Compressed_wlevel", 10, 7, 1, 1, "WitnessOneStoredLevel", 1), "witness: a recursive index with a stored level below the root", workers=2, timeout=600,
+                           expect="violation:*", constants={"U": 10, "N": 7, "EpsRec": 1}))
         ms.append(ModelRun("Compressed.tla", comp_cfg("Compressed_seam", 12, 8, 1, 3, "Shape C08Present C08LowerBound"),
                            "sensitivity: a first level built in 3 chunks violates the search contract (F16 with exact geometry)", workers=4, timeout=900,
                            expect="violation:*", constants={"U": 12, "N": 8, "Eps": 1, "NChunks": 3}))
